@@ -17,6 +17,19 @@ PANIC_NAMES = ("unwrap", "expect", "unwrap_err", "expect_err", "panic", "panic_f
 FN_TRAITS = ("core::ops::function::Fn::call", "core::ops::function::FnMut::call_mut", "core::ops::function::FnOnce::call_once")
 
 
+OBS_MACROS = ("debug", "info", "warn", "trace", "error", "event", "span", "counter", "gauge", "histogram",
+              "describe_counter", "describe_gauge", "describe_histogram", "tracing::debug", "tracing::info", "tracing::warn",
+              "tracing::trace", "tracing::error", "tracing::event", "metrics::counter", "metrics::gauge", "metrics::histogram")
+
+
+def in_observability_macro(t):
+    """terminator comes from the expansion of a tracing / metrics facade macro (trusted not to unwind)"""
+    m = t["span"].get("omacro")
+    if m is None:
+        return False
+    return m in OBS_MACROS or m.split("::")[-1] in OBS_MACROS
+
+
 class Unwind:
     """may-unwind policy (DESIGN §2.2)"""
 
@@ -39,7 +52,7 @@ class Unwind:
             t = g.term(i)
             if g.b.blocks[i].get("cleanup"):
                 continue
-            if t["k"] == "assert":
+            if t["k"] == "assert" and not in_observability_macro(t):
                 res = True
                 break
             if t["k"] == "call" and self.call_may_unwind(Call(g, i, t)):
@@ -50,6 +63,8 @@ class Unwind:
         return res
 
     def call_may_unwind(self, c):
+        if in_observability_macro(c.t):
+            return False
         if c.fn is None:
             return True
         if c.def_ in FN_TRAITS:
@@ -78,6 +93,41 @@ class Unwind:
                         cb = self._find(rv["def"], b2.crate.name)
                         if cb is not None and self.body_may_unwind(cb):
                             return True
+        return False
+
+    def drop_may_unwind(self, ty, types, depth=0):
+        """may running the destructor of a value of this type unwind?  Only user-controlled code can:
+        type parameters, trait objects, associated types, closures/coroutines capturing such, and
+        workspace-local Drop impls whose body may unwind."""
+        k = ty.get("k")
+        if k in ("param", "dyn", "alias"):
+            return True
+        if k in ("prim", "ref", "ptr", "fndef", "fnptr"):
+            return False
+        if depth > 3:
+            return False
+        if k in ("closure", "coroutine", "coroutine_closure"):
+            return True
+        if k in ("tuple", "array", "slice"):
+            return any(isinstance(a, int) and self.drop_may_unwind(types[a], types, depth + 1) for a in ty.get("args", []))
+        if k == "adt":
+            adt = self.facts.adt(ty["def"])
+            if adt is not None:
+                # workspace-local type: its own Drop impl, then its fields
+                for c in self.facts.crates.values():
+                    for im in c.impls:
+                        if im.get("trait") == "core::ops::drop::Drop" and c.types[im["self_ty"]].get("def") == ty["def"]:
+                            for it in im["items"]:
+                                b = self.facts.bodies.get(it["def"])
+                                if b is not None and self.body_may_unwind(b):
+                                    return True
+                    if ty["def"] in c.adts:
+                        for v in adt["variants"]:
+                            for f in v["fields"]:
+                                if self.drop_may_unwind(c.types[f["ty"]], c.types, depth + 1):
+                                    return True
+                return False
+            return any(isinstance(a, int) and self.drop_may_unwind(types[a], types, depth + 1) for a in ty.get("args", []))
         return False
 
     def _find(self, def_, crate=None):
@@ -226,14 +276,14 @@ class Pair:
                 if h is not None and pl["l"] == h and pl["p"]:
                     # dropping the field that holds the guard
                     continue
-                noop = (not pl["p"]) and not g.maybe_init(pl["l"], bb)
+                noop = ((not pl["p"]) and not g.maybe_init(pl["l"], bb)) or in_observability_macro(t)
                 for (tgt, kind, _l) in g.succ[bb]:
                     if kind == U and noop:
                         continue        # dropping a moved-out local runs no destructor
                     if kind == U:
-                        # destructors of other values: user types may unwind
+                        # destructors of other values: only user-controlled types may unwind
                         ty = body.local_ty(pl["l"]) if not pl["p"] else None
-                        if ty is not None and ty.get("k") not in ("param", "adt", "closure", "coroutine", "dyn", "alias", "tuple"):
+                        if ty is not None and not self.unw.drop_may_unwind(ty, body.types):
                             continue
                     if tgt == EXIT_UNWIND:
                         viol.append(("unwind-exit", g.where(bb), path))
@@ -256,6 +306,8 @@ class Pair:
             if k == "unreachable":
                 continue
             for (tgt, kind, _l) in g.succ[bb]:
+                if kind == U and in_observability_macro(t):
+                    continue
                 if tgt == EXIT_UNWIND:
                     viol.append(("unwind-exit", g.where(bb), path))
                     continue
